@@ -67,14 +67,15 @@ def _check_one(args):
     full.update(kwargs)
     real = driver.real_call(contract, full)
     try:
-        conc = driver.concrete_run(contract, registry, full)
+        conc = driver.concrete_run(contract, registry, full, case)
     except Unsupported as e:
         conc = None
         rec["ghostless"] = str(e)[:120]
     except Exception as e:  # noqa
         conc = None
         rec["ghostless"] = "%s: %s" % (type(e).__name__, str(e)[:120])
-    if conc is not None:
+    cut = bool(conc and conc.get("cut"))
+    if conc is not None and not cut:
         same = conc["outcome"] == real["outcome"] and (
             driver.same_value(conc["value"], real["value"]) if conc["outcome"] == "return" else conc["value"] == real["value"])
         if not same:
@@ -83,14 +84,24 @@ def _check_one(args):
     ghosts = conc["ghosts"] if conc else {}
     rec["outcome"] = real["outcome"]
     rec["value"] = repr(real["value"])[:200]
+    if real["outcome"] == "raise" and cut:
+        # a cut-point contract speaks about the state at the cut: clauses that do not mention `result` are decided from the ghosts
+        for cl in contract.ensures:
+            if (cl.when is None or case.name in cl.when) and not V._re_word("result", cl.text):
+                try:
+                    if not driver.eval_clause_py(contract, cl.text, full, None, ghosts, real=real):
+                        rec["failed"].append({"clause": cl.id, "text": cl.text})
+                except Exception as e:  # noqa
+                    rec.setdefault("errors", []).append("%s: %s: %s" % (cl.id, type(e).__name__, e))
+        return rec
     if real["outcome"] == "raise":
-        allowed = contract.raises.get(real["value"])
+        allowed = next((contract.raises[n] for n in real.get("mro", [real["value"]]) if n in contract.raises), None)  # a subclass is allowed with its base
         okr = False
         if allowed is True:
             okr = True
         elif allowed is not None:
             try:
-                okr = driver.eval_clause_py(contract, allowed, full, None, ghosts)
+                okr = driver.eval_clause_py(contract, allowed, full, None, ghosts, real=real)
             except Exception:
                 okr = False
         if not okr:
@@ -100,7 +111,7 @@ def _check_one(args):
         if cl.when is not None and case.name not in cl.when:
             continue
         try:
-            okc = driver.eval_clause_py(contract, cl.text, full, real["value"], ghosts)
+            okc = driver.eval_clause_py(contract, cl.text, full, real["value"], ghosts, real=real)
         except NameError as e:
             if conc is None:
                 continue  # ghost not available without an engine run
